@@ -75,7 +75,7 @@ func CopyMemDB(src dbm.DB) *dbm.MemDB {
 type Op struct {
 	Store int    `json:"s"`
 	Del   bool   `json:"d,omitempty"`
-	Key   string `json:"k"`
+	Key   B      `json:"k"`
 	Val   string `json:"v,omitempty"`
 }
 
@@ -122,7 +122,7 @@ func GenMSHist(r *sim.Rand, quick bool) MSHist {
 			k = 0 // empty commit
 		}
 		for i := 0; i < k; i++ {
-			o := Op{Store: r.Intn(h.NStores + 1), Key: keyAlphabet[r.Intn(len(keyAlphabet))]}
+			o := Op{Store: r.Intn(h.NStores + 1), Key: B(keyAlphabet[r.Intn(len(keyAlphabet))])}
 			if r.Chance(30) {
 				o.Del = true
 			} else {
@@ -133,7 +133,7 @@ func GenMSHist(r *sim.Rand, quick bool) MSHist {
 		if r.Chance(4) { // delete everything in one store
 			s := r.Intn(h.NStores)
 			for _, key := range keyAlphabet {
-				ops = append(ops, Op{Store: s, Del: true, Key: key})
+				ops = append(ops, Op{Store: s, Del: true, Key: B(key)})
 			}
 		}
 		h.Commits = append(h.Commits, ops)
@@ -292,9 +292,9 @@ func RunC12(h *MSHist, rep Reporter) {
 				continue
 			}
 			if o.Del {
-				delete(model[o.Store], o.Key)
+				delete(model[o.Store], string(o.Key))
 			} else {
-				model[o.Store][o.Key] = o.Val
+				model[o.Store][string(o.Key)] = o.Val
 			}
 		}
 		var cid stypes.CommitID
@@ -407,9 +407,9 @@ func RunC13(h *MSHist, rep Reporter) int {
 				continue
 			}
 			if o.Del {
-				delete(model[o.Store], o.Key)
+				delete(model[o.Store], string(o.Key))
 			} else {
-				model[o.Store][o.Key] = o.Val
+				model[o.Store][string(o.Key)] = o.Val
 			}
 		}
 		before := cdb.Ops
